@@ -138,7 +138,9 @@ func (q *ConvexHullQuery) CapBound() Cap {
 // adding to the query and call this method again.
 func (q *ConvexHullQuery) ConvexHull() *Loop {
 	c := q.CapBound()
-	if c.Height() >= 1 {
+	// (The margin allows for the rounding of the bounding cap: a cap that is
+	// a hemisphere up to rounding must not be treated as convex.)
+	if c.Height() >= 1-10*dblError {
 		// The bounding cap is not convex. The current bounding cap
 		// implementation is not optimal, but nevertheless it is likely that the
 		// input geometry itself is not contained by any convex polygon. In any
@@ -250,9 +252,24 @@ func singleEdgeLoop(a, b Point) *Loop {
 	// Construct a loop consisting of the two vertices and their midpoint.  We
 	// use Interpolate() to ensure that the midpoint is very close to
 	// the edge even when its endpoints nearly antipodal.
-	vertices := []Point{a, b, Interpolate(0.5, a, b)}
-	loop := LoopFromPoints(vertices)
-	// The resulting loop may be clockwise, so invert it if necessary.
-	loop.Normalize()
-	return loop
+	mid := Interpolate(0.5, a, b)
+	if mid == a || mid == b {
+		// A and B are within rounding of each other, so their midpoint is
+		// not a third distinct vertex; use a point next to A instead (as for
+		// a single point).
+		near := singlePointLoop(a)
+		mid = near.Vertex(1)
+		if mid == b {
+			mid = near.Vertex(2)
+		}
+	}
+	vertices := []Point{a, b, mid}
+	// The resulting loop may be clockwise, so reverse it if necessary. Its
+	// orientation is decided with the exact predicate: the loop has (nearly)
+	// zero area and may be only a few ulps across, so its turning angle is
+	// rounding noise.
+	if RobustSign(a, b, mid) == Clockwise {
+		vertices[0], vertices[1] = b, a
+	}
+	return LoopFromPoints(vertices)
 }
